@@ -15,6 +15,10 @@
 #include <mutex>
 #include <random>
 #include <math.h>
+#ifndef _WIN32
+#include <sys/types.h>
+#include <unistd.h>
+#endif
 
 #include <boost/date_time/posix_time/posix_time.hpp>
 #include <boost/regex.hpp>
@@ -51,6 +55,18 @@ string createId() {
                              static_cast<seed_type>(entropy())};
     static boost::mt19937 ran(seq);
     static boost::uuids::basic_random_generator<boost::mt19937> gen(&ran);
+#ifndef _WIN32
+    // a child forked after the first call inherits the engine's state and would repeat the ids of its parent
+    // and of its siblings: remember the process the engine was seeded in and seed again in any other one
+    static pid_t seeded_in = getpid();
+    if (seeded_in != getpid()) {
+        seeded_in = getpid();
+        std::seed_seq again{static_cast<seed_type>(std::time(0)), static_cast<seed_type>(entropy()),
+                            static_cast<seed_type>(entropy()), static_cast<seed_type>(entropy()),
+                            static_cast<seed_type>(entropy()), static_cast<seed_type>(seeded_in)};
+        ran.seed(again);
+    }
+#endif
     boost::uuids::uuid u = gen();
     return boost::uuids::to_string(u);
 }
